@@ -29,6 +29,8 @@ RES = 0.01
 # scenario generation
 # ---------------------------------------------------------------------------
 def generate(rng, tier='quick', stack=None, focus='general', **kw):
+  if focus == 'c09':
+    return generate_c09(rng, tier, stack, **kw)
   stack = stack or rng.choice(['thrift', 'mux'])
   big = tier != 'quick'
   n_eps = rng.choice([1, 1, 2, 2, 3, 4] if not big else [1, 2, 3, 4, 5, 6])
@@ -177,6 +179,74 @@ def generate(rng, tier='quick', stack=None, focus='general', **kw):
   faults.sort(key=lambda f: f['t'])
   scn['faults'] = faults
   scn['directives'] = directives
+  return scn
+
+
+def generate_c09(rng, tier='quick', stack=None, **kw):
+  """Endpoints go down and come back under steady background traffic; long
+  virtual horizons so that back-off and recovery can be observed."""
+  stack = stack or rng.choice(['thrift', 'mux'])
+  n_eps = rng.choice([1, 1, 2, 2, 3])
+  balancer = rng.choice(['aperture', 'heap'])
+  res = {'initial_wait_interval': rng.choice([2, 3, 5, 10]),
+         'max_wait_interval': rng.choice([10, 30, 60, 120]),
+         'backoff_exponent': rng.choice([1.1, 1.2, 1.5, 2.0])}
+  res['max_wait_interval'] = max(res['max_wait_interval'], res['initial_wait_interval'])
+  scn = {'world': 'w_stack', 'stack': stack, 'balancer': balancer, 'focus': 'c09', 'iface': 'sim',
+         'client_id': None,
+         'eps': [{'latency': rng.choice([0.0002, 0.001, 0.003]), 'mode': 'up'} for _ in range(n_eps)]}
+  cfg = {'timeout': rng.choice([0.25, 1.0]), 'open_timeout': rng.choice([None, 0, 0.02]),
+         'resurrector': res, 'members_dynamic': False, 'get_servers_delay': 0, 'init_failures': 0}
+  if stack == 'thrift':
+    cfg['pool'] = {'min_watermark': rng.randint(0, 2), 'max_watermark': 2 ** 31 - 1, 'max_queue_len': 2 ** 31 - 1}
+  else:
+    cfg['tag_base'] = None
+    cfg['answer_discards'] = True
+  if balancer == 'aperture':
+    cfg['aperture'] = {'min_size': n_eps, 'max_size': 2 ** 31, 'min_load': 0.5, 'max_load': 2.0,
+                       'jitter_min_sec': 0, 'jitter_max_sec': 240}
+  scn['cfg'] = cfg
+  scn['net'] = {'chunk': rng.choice(['none', 'some']), 'jitter': rng.choice([0.0, 0.0003]), 'dns_multi': False}
+  scn['loop'] = {}
+  scn['permute_sets'] = rng.random() < 0.3
+  faults = []
+  t = rng.choice([0.0, 0.0, 0.5, 3.0])
+  last_heal = 0.0
+  down_now = set()
+  for _ in range(rng.randint(1, 3)):
+    ep = rng.randrange(n_eps)
+    do = rng.choice(['crash', 'crash', 'crash_blackhole', 'refuse', 'reset'])
+    if t == 0.0 and do != 'reset':
+      scn['eps'][ep]['mode'] = 'refuse' if do != 'crash_blackhole' else 'blackhole'
+    else:
+      faults.append({'t': round(t, 3), 'do': do, 'ep': ep})
+    if do != 'reset':
+      dur = rng.choice([0.5, 4.0, 15.0, 40.0, 90.0])
+      faults.append({'t': round(t + dur, 3), 'do': 'restart', 'ep': ep})
+      last_heal = max(last_heal, t + dur)
+      t += dur
+    t += rng.choice([0.3, 2.0, 10.0])
+  spacing = rng.choice([0.2, 0.5, 1.0, 2.0])
+  tail = res['max_wait_interval'] + 3.0 + 45 * spacing
+  end = max(last_heal, t) + tail
+  ops = []
+  i = 0
+  tt = rng.choice([0.0, 0.05])
+  n_max = 260 if tier == 'quick' else 600
+  while tt < end and i < n_max:
+    ops.append({'t': round(tt, 4), 'op': 'call', 'id': 'c%d' % i, 'method': rng.choice(['echo', 'risky']),
+                'payload': 'x', 'timeout': None, 'svc': {'delay': rng.choice([0.001, 0.005, 0.02])},
+                'via': 'dispatch'})
+    tt += spacing * rng.choice([0.5, 1, 1, 1.5])
+    i += 1
+  scn['ops'] = ops
+  if rng.random() < 0.25:
+    faults.append({'t': round(rng.uniform(0.2, end * 0.7), 3), 'do': 'close'})
+  faults.sort(key=lambda f: f['t'])
+  scn['faults'] = faults
+  scn['directives'] = []
+  scn['horizon_extra'] = 4.0
+  scn['c09'] = {'spacing': spacing, 'last_heal': last_heal, 'end': end}
   return scn
 
 
